@@ -162,7 +162,9 @@ def check_binary(model, proto, rng, quick, stats, viols, seedinfo):
         stats["cuts"] = stats.get("cuts", 0) + 1
         try:
             with runner.time_limit(20):
-                d, err, closed = P.read_all(model, proto, "binary", stream)
+                lenient = _LENIENT[0] = rng.fork("lenient", p).chance(0.4)
+                stats["python_cuts_read_with_skip_completed_check"] = stats.get("python_cuts_read_with_skip_completed_check", 0) + (1 if lenient else 0)
+                d, err, closed = P.read_all(model, proto, "binary", stream, lenient=lenient)
         except runner.Hang:
             viols.append(({"class": "reader_hangs_on_truncated_stream", "lang": "python", "format": "binary", "position_class": cls},
                           _doc(model, proto, vals, parts, p, mode, "binary", seedinfo)))
@@ -301,7 +303,9 @@ def check_ndjson(model, proto, rng, quick, stats, viols, seedinfo):
             pass
         try:
             with runner.time_limit(20):
-                d, err, closed = P.read_all(model, proto, "ndjson", P.text_input_bytes(prefix))
+                lenient = _LENIENT[0] = rng.fork("lenient", p).chance(0.4)
+                stats["python_cuts_read_with_skip_completed_check"] = stats.get("python_cuts_read_with_skip_completed_check", 0) + (1 if lenient else 0)
+                d, err, closed = P.read_all(model, proto, "ndjson", P.text_input_bytes(prefix), lenient=lenient)
         except runner.Hang:
             viols.append(({"class": "reader_hangs_on_truncated_stream", "lang": "python", "format": "ndjson"}, _doc(model, proto, vals, None, p, "whole", "ndjson", seedinfo)))
             return
@@ -400,8 +404,11 @@ def _uv(v):
     return bytes(b)
 
 
+_LENIENT = [False]      # the reader configuration of the run at hand (goes into the replay file)
+
+
 def _doc(model, proto, vals, parts, p, mode, fmt, seedinfo):
-    return {"kind": "c16", "pkg": sw.pack_pkg(model.pkg), "files": M.render_tree(model.pkg, ""), "protocol": proto.name, "values": sw.pack(vals),
+    return {"lenient": _LENIENT[0], "kind": "c16", "pkg": sw.pack_pkg(model.pkg), "files": M.render_tree(model.pkg, ""), "protocol": proto.name, "values": sw.pack(vals),
             "partitions": sw.pack(parts), "cut": p, "chunk_mode": mode, "format": fmt, "seed": seedinfo["seed"], "model_index": seedinfo["i"],
             "values_repr": repr(vals)[:2000]}
 
@@ -593,11 +600,11 @@ def replay_doc(doc, ybin, root):
         if doc["format"] == "binary":
             data = codec.encode_stream(proto, ns, model.schema(proto), vals, parts)
             rng = M.derive(doc["seed"], "replay")
-            d, err, closed = P.read_all(model, proto, "binary", P.binary_input(data[:doc["cut"]], rng, doc["chunk_mode"]))
+            d, err, closed = P.read_all(model, proto, "binary", P.binary_input(data[:doc["cut"]], rng, doc["chunk_mode"]), lenient=bool(doc.get("lenient")))
             numeric = False
         else:
             raw = codec.encode_ndjson(proto, ns, model.schema(proto), vals).encode("utf-8")
-            d, err, closed = P.read_all(model, proto, "ndjson", P.text_input_bytes(raw[:doc["cut"]]))
+            d, err, closed = P.read_all(model, proto, "ndjson", P.text_input_bytes(raw[:doc["cut"]]), lenient=bool(doc.get("lenient")))
             numeric = True
         if cls in ("truncation_not_reported", "ndjson_prefix_is_complete_document"):
             return err is None, "reader error: %r, delivered %d values" % (err, len(d))
